@@ -476,6 +476,81 @@ def array_rules(rep):
             rep.violation(f"array-rule:{name}", f"{name} no longer is the join of (p_id_kindergeld_empf, p_id, target, default) the contract describes: {got}", {"obligation": f"AR {name}", "got": str(got), "expected": str(w)}, False)
 
 
+def bg_array_rule(rep):
+    """AR5: _in_anderer_bedarfsgemeinschaft_als_kindergeldempfänger -- dict(zip(...)) + a list
+    comprehension (a map) + elementwise != ; element expression evaluated symbolically (vt/loopvc)
+    for an arbitrary row i, dict look-up safety and postcondition discharged by z3 (unbounded N)"""
+    import ast
+    import inspect
+    import textwrap
+
+    import z3
+
+    from _gettsim.transfers.arbeitsl_geld_2 import kindergelduebertrag as kg
+    from vt import loopvc
+
+    name = "_in_anderer_bedarfsgemeinschaft_als_kindergeldempfänger"
+    where = "src/_gettsim/transfers/arbeitsl_geld_2/kindergelduebertrag.py"
+    f = inspect.unwrap(getattr(kg, name))
+    fn = ast.parse(textwrap.dedent(inspect.getsource(f))).body[0]
+    body = [s_ for s_ in fn.body if not (isinstance(s_, ast.Expr) and isinstance(s_.value, ast.Constant))]
+    ok_shape = (
+        len(body) == 3
+        and isinstance(body[0], ast.Assign) and ast.unparse(body[0].value) == "dict(zip(p_id, bg_id))"
+        and isinstance(body[1], ast.Assign) and isinstance(body[1].value, ast.ListComp) and ast.unparse(body[1].value.generators[0].iter) == "p_id_kindergeld_empf" and not body[1].value.generators[0].ifs
+        and isinstance(body[2], ast.Return) and isinstance(body[2].value, ast.Compare) and isinstance(body[2].value.ops[0], ast.NotEq)
+    )
+    if not ok_shape:
+        rep.ob(f"AR5 {name}: contract binds to the code", "unsupported", "E2", 0, where, "binding", ast.unparse(fn)[-200:])
+        return
+    dname = body[0].targets[0].id
+    lname = body[1].targets[0].id
+    comp = body[1].value
+    xname = comp.generators[0].target.id
+    Int = z3.IntSort()
+    N = z3.Int("N")
+    P, BG, E = z3.Array("p_id", Int, Int), z3.Array("bg_id", Int, Int), z3.Array("p_id_kindergeld_empf", Int, Int)
+    D = loopvc.SDict(z3.Array("d!dom", Int, z3.BoolSort()), z3.Array("d!val", Int, Int))
+    rowof = z3.Function("rowof", Int, Int)
+    i, j, x = z3.Ints("i! j! x!")
+    pre = [
+        N >= 0,
+        z3.ForAll([i, j], z3.Implies(z3.And(0 <= i, i < N, 0 <= j, j < N, P[i] == P[j]), i == j)),
+        z3.ForAll([i], z3.Implies(z3.And(0 <= i, i < N, E[i] >= 0), z3.And(0 <= rowof(E[i]), rowof(E[i]) < N, P[rowof(E[i])] == E[i]))),
+        # dict(zip(p_id, bg_id)) under unique keys
+        z3.ForAll([i], z3.Implies(z3.And(0 <= i, i < N), z3.And(D.dom[P[i]], D.val[P[i]] == BG[i]))),
+        z3.ForAll([x], z3.Implies(D.dom[x], z3.And(0 <= rowof(x), rowof(x) < N, P[rowof(x)] == x))),
+    ]
+    vc = loopvc.LoopVC(f)
+    k = z3.Int("k")
+    st = {dname: D, xname: z3.Select(E, k), "bg_id": loopvc.SArr(BG, N, Int), "p_id": loopvc.SArr(P, N, Int)}
+    vc.safety = []
+    try:
+        elt = vc.ev(comp.elt, st, z3.BoolVal(True)) if not isinstance(comp.elt, ast.IfExp) else None
+        if elt is None:
+            c = vc.truth(vc.ev(comp.elt.test, st, z3.BoolVal(True)))
+            a = vc.ev(comp.elt.body, st, c)
+            b = vc.ev(comp.elt.orelse, st, z3.Not(c))
+            elt = z3.If(c, a, b)
+    except loopvc.Unsupported as ex:
+        rep.ob(f"AR5 {name}: element expression inside the E2 subset", "unsupported", "E2", 0, where, "binding", str(ex))
+        return
+    left = ast.unparse(body[2].value.left)
+    right = ast.unparse(body[2].value.comparators[0])
+    if {left, right} != {"bg_id", lname}:
+        rep.ob(f"AR5 {name}: compares bg_id with the mapped list", "unsupported", "E2", 0, where, "binding", ast.unparse(body[2]))
+        return
+    out_k = BG[k] != elt
+    hyp = [*pre, 0 <= k, k < N]
+    for pc, cond, desc in vc.safety:
+        r = solve.check([*hyp, pc, z3.Not(cond)], 20)
+        rep.ob(f"AR5 {name}: safety {desc}", {"unsat": "discharged", "sat": "refuted"}.get(r.status, "unknown"), r.backend, r.seconds, where, "vc")
+    goal = out_k == (BG[k] != z3.If(E[k] >= 0, BG[rowof(E[k])], -1))
+    r = solve.check([*hyp, z3.Not(goal)], 20)
+    rep.ob(f"AR5 {name}: row i is True iff its bg_id differs from the bg_id of the row its Kindergeld recipient pointer names (-1 if none)", {"unsat": "discharged", "sat": "refuted"}.get(r.status, "unknown"), r.backend, r.seconds, where, "vc")
+    rep.functions.add(f"{where} {name}")
+
+
 def replay(path):
     from _gettsim import aggregation_numpy as an
     from _gettsim.shared import join_numpy
@@ -524,6 +599,7 @@ def run(tier="quick", seed=0, jobs=16):
     abstract_group_kernels(rep)
     join_ok = join_proof(rep)
     array_rules(rep)
+    bg_array_rule(rep)
     not_implemented(rep)
     precedence(rep)
     failing = bounded(rep, tier)
